@@ -1107,6 +1107,8 @@ class Interp:
         if name == "copy":
             guard()
             return NativeFunc(lambda it, a, k: I.list_copy(l, False))
+        if not hasattr(list, name):
+            I.raise_("AttributeError", f"'list' object has no attribute '{name}'")
         raise Unsupported(f"list.{name}")
 
     def sorted_list(self, elems, key=None, reverse=False):
@@ -1238,6 +1240,8 @@ class Interp:
             def clear(it, a, k):
                 d.entries = []
             return NativeFunc(clear)
+        if not hasattr(dict, name):
+            I.raise_("AttributeError", f"'dict' object has no attribute '{name}'")
         raise Unsupported(f"dict.{name}")
 
     def dict_setitem(self, d, k, v):
@@ -1277,6 +1281,8 @@ class Interp:
                     I.raise_("KeyError", "pop from an empty set")
                 return s.elems.pop(0)
             return NativeFunc(pop)
+        if not hasattr(set, name):
+            I.raise_("AttributeError", f"'set' object has no attribute '{name}'")
         raise Unsupported(f"set.{name}")
 
     # ------------------------------------------------------------------ iteration
@@ -1527,6 +1533,8 @@ class Interp:
         elif isinstance(c, Obj):
             f = self.class_lookup(c.cls, "__setitem__")
             self.call(f, [c, k, v], {})
+        elif isinstance(c, PSet) or c is None or isinstance(c, (int, bool, str, SInt, SBool, SStr)):
+            self.raise_("TypeError", "object does not support item assignment")
         else:
             raise Unsupported("setitem")
 
